@@ -1,5 +1,6 @@
 #include "hashmaster.h"
 #include <string.h>
+#include "../../wverif.h"
 
 // 循环左移的位数
 
@@ -56,6 +57,7 @@
 
 void md5hash::getHash(const u8_t *input)
 {
+  WV_GHOST(WV_HLOG_BLOCK(input); WV_SNAP_H(this->h, 4);)
   memset(s, 0, sizeof(s));
   memcpy(s, input, sizeof(s));
   addtotal(64);
@@ -63,82 +65,149 @@ void md5hash::getHash(const u8_t *input)
   unsigned int b = h[1];
   unsigned int c = h[2];
   unsigned int d = h[3];
+  WV_GHOST(spec_h4 wv_m = {{a, b, c, d}}; wv_rounds = 0;)
 
   // 第1轮循环变换
 
   FF(a, b, c, d, x[0], S11, 0xd76aa478);  /* 1 */
+  WV_GHOST(wv_m = spec_md5_step(wv_m, 0, this->x); wv_rounds++;) WV_CUT(a, b, c, d, wv_m; WV_MD5_EQ(wv_m, a, b, c, d))
   FF(d, a, b, c, x[1], S12, 0xe8c7b756);  /* 2 */
+  WV_GHOST(wv_m = spec_md5_step(wv_m, 1, this->x); wv_rounds++;) WV_CUT(a, b, c, d, wv_m; WV_MD5_EQ(wv_m, a, b, c, d))
   FF(c, d, a, b, x[2], S13, 0x242070db);  /* 3 */
+  WV_GHOST(wv_m = spec_md5_step(wv_m, 2, this->x); wv_rounds++;) WV_CUT(a, b, c, d, wv_m; WV_MD5_EQ(wv_m, a, b, c, d))
   FF(b, c, d, a, x[3], S14, 0xc1bdceee);  /* 4 */
+  WV_GHOST(wv_m = spec_md5_step(wv_m, 3, this->x); wv_rounds++;) WV_CUT(a, b, c, d, wv_m; WV_MD5_EQ(wv_m, a, b, c, d))
   FF(a, b, c, d, x[4], S11, 0xf57c0faf);  /* 5 */
+  WV_GHOST(wv_m = spec_md5_step(wv_m, 4, this->x); wv_rounds++;) WV_CUT(a, b, c, d, wv_m; WV_MD5_EQ(wv_m, a, b, c, d))
   FF(d, a, b, c, x[5], S12, 0x4787c62a);  /* 6 */
+  WV_GHOST(wv_m = spec_md5_step(wv_m, 5, this->x); wv_rounds++;) WV_CUT(a, b, c, d, wv_m; WV_MD5_EQ(wv_m, a, b, c, d))
   FF(c, d, a, b, x[6], S13, 0xa8304613);  /* 7 */
+  WV_GHOST(wv_m = spec_md5_step(wv_m, 6, this->x); wv_rounds++;) WV_CUT(a, b, c, d, wv_m; WV_MD5_EQ(wv_m, a, b, c, d))
   FF(b, c, d, a, x[7], S14, 0xfd469501);  /* 8 */
+  WV_GHOST(wv_m = spec_md5_step(wv_m, 7, this->x); wv_rounds++;) WV_CUT(a, b, c, d, wv_m; WV_MD5_EQ(wv_m, a, b, c, d))
   FF(a, b, c, d, x[8], S11, 0x698098d8);  /* 9 */
+  WV_GHOST(wv_m = spec_md5_step(wv_m, 8, this->x); wv_rounds++;) WV_CUT(a, b, c, d, wv_m; WV_MD5_EQ(wv_m, a, b, c, d))
   FF(d, a, b, c, x[9], S12, 0x8b44f7af);  /* 10 */
+  WV_GHOST(wv_m = spec_md5_step(wv_m, 9, this->x); wv_rounds++;) WV_CUT(a, b, c, d, wv_m; WV_MD5_EQ(wv_m, a, b, c, d))
   FF(c, d, a, b, x[10], S13, 0xffff5bb1); /* 11 */
+  WV_GHOST(wv_m = spec_md5_step(wv_m, 10, this->x); wv_rounds++;) WV_CUT(a, b, c, d, wv_m; WV_MD5_EQ(wv_m, a, b, c, d))
   FF(b, c, d, a, x[11], S14, 0x895cd7be); /* 12 */
+  WV_GHOST(wv_m = spec_md5_step(wv_m, 11, this->x); wv_rounds++;) WV_CUT(a, b, c, d, wv_m; WV_MD5_EQ(wv_m, a, b, c, d))
   FF(a, b, c, d, x[12], S11, 0x6b901122); /* 13 */
+  WV_GHOST(wv_m = spec_md5_step(wv_m, 12, this->x); wv_rounds++;) WV_CUT(a, b, c, d, wv_m; WV_MD5_EQ(wv_m, a, b, c, d))
   FF(d, a, b, c, x[13], S12, 0xfd987193); /* 14 */
+  WV_GHOST(wv_m = spec_md5_step(wv_m, 13, this->x); wv_rounds++;) WV_CUT(a, b, c, d, wv_m; WV_MD5_EQ(wv_m, a, b, c, d))
   FF(c, d, a, b, x[14], S13, 0xa679438e); /* 15 */
+  WV_GHOST(wv_m = spec_md5_step(wv_m, 14, this->x); wv_rounds++;) WV_CUT(a, b, c, d, wv_m; WV_MD5_EQ(wv_m, a, b, c, d))
   FF(b, c, d, a, x[15], S14, 0x49b40821); /* 16 */
+  WV_GHOST(wv_m = spec_md5_step(wv_m, 15, this->x); wv_rounds++;) WV_CUT(a, b, c, d, wv_m; WV_MD5_EQ(wv_m, a, b, c, d))
 
   // 第2轮循环变换
 
   GG(a, b, c, d, x[1], S21, 0xf61e2562);  /* 17 */
+  WV_GHOST(wv_m = spec_md5_step(wv_m, 16, this->x); wv_rounds++;) WV_CUT(a, b, c, d, wv_m; WV_MD5_EQ(wv_m, a, b, c, d))
   GG(d, a, b, c, x[6], S22, 0xc040b340);  /* 18 */
+  WV_GHOST(wv_m = spec_md5_step(wv_m, 17, this->x); wv_rounds++;) WV_CUT(a, b, c, d, wv_m; WV_MD5_EQ(wv_m, a, b, c, d))
   GG(c, d, a, b, x[11], S23, 0x265e5a51); /* 19 */
+  WV_GHOST(wv_m = spec_md5_step(wv_m, 18, this->x); wv_rounds++;) WV_CUT(a, b, c, d, wv_m; WV_MD5_EQ(wv_m, a, b, c, d))
   GG(b, c, d, a, x[0], S24, 0xe9b6c7aa);  /* 20 */
+  WV_GHOST(wv_m = spec_md5_step(wv_m, 19, this->x); wv_rounds++;) WV_CUT(a, b, c, d, wv_m; WV_MD5_EQ(wv_m, a, b, c, d))
   GG(a, b, c, d, x[5], S21, 0xd62f105d);  /* 21 */
+  WV_GHOST(wv_m = spec_md5_step(wv_m, 20, this->x); wv_rounds++;) WV_CUT(a, b, c, d, wv_m; WV_MD5_EQ(wv_m, a, b, c, d))
   GG(d, a, b, c, x[10], S22, 0x2441453);  /* 22 */
+  WV_GHOST(wv_m = spec_md5_step(wv_m, 21, this->x); wv_rounds++;) WV_CUT(a, b, c, d, wv_m; WV_MD5_EQ(wv_m, a, b, c, d))
   GG(c, d, a, b, x[15], S23, 0xd8a1e681); /* 23 */
+  WV_GHOST(wv_m = spec_md5_step(wv_m, 22, this->x); wv_rounds++;) WV_CUT(a, b, c, d, wv_m; WV_MD5_EQ(wv_m, a, b, c, d))
   GG(b, c, d, a, x[4], S24, 0xe7d3fbc8);  /* 24 */
+  WV_GHOST(wv_m = spec_md5_step(wv_m, 23, this->x); wv_rounds++;) WV_CUT(a, b, c, d, wv_m; WV_MD5_EQ(wv_m, a, b, c, d))
   GG(a, b, c, d, x[9], S21, 0x21e1cde6);  /* 25 */
+  WV_GHOST(wv_m = spec_md5_step(wv_m, 24, this->x); wv_rounds++;) WV_CUT(a, b, c, d, wv_m; WV_MD5_EQ(wv_m, a, b, c, d))
   GG(d, a, b, c, x[14], S22, 0xc33707d6); /* 26 */
+  WV_GHOST(wv_m = spec_md5_step(wv_m, 25, this->x); wv_rounds++;) WV_CUT(a, b, c, d, wv_m; WV_MD5_EQ(wv_m, a, b, c, d))
   GG(c, d, a, b, x[3], S23, 0xf4d50d87);  /* 27 */
+  WV_GHOST(wv_m = spec_md5_step(wv_m, 26, this->x); wv_rounds++;) WV_CUT(a, b, c, d, wv_m; WV_MD5_EQ(wv_m, a, b, c, d))
   GG(b, c, d, a, x[8], S24, 0x455a14ed);  /* 28 */
+  WV_GHOST(wv_m = spec_md5_step(wv_m, 27, this->x); wv_rounds++;) WV_CUT(a, b, c, d, wv_m; WV_MD5_EQ(wv_m, a, b, c, d))
   GG(a, b, c, d, x[13], S21, 0xa9e3e905); /* 29 */
+  WV_GHOST(wv_m = spec_md5_step(wv_m, 28, this->x); wv_rounds++;) WV_CUT(a, b, c, d, wv_m; WV_MD5_EQ(wv_m, a, b, c, d))
   GG(d, a, b, c, x[2], S22, 0xfcefa3f8);  /* 30 */
+  WV_GHOST(wv_m = spec_md5_step(wv_m, 29, this->x); wv_rounds++;) WV_CUT(a, b, c, d, wv_m; WV_MD5_EQ(wv_m, a, b, c, d))
   GG(c, d, a, b, x[7], S23, 0x676f02d9);  /* 31 */
+  WV_GHOST(wv_m = spec_md5_step(wv_m, 30, this->x); wv_rounds++;) WV_CUT(a, b, c, d, wv_m; WV_MD5_EQ(wv_m, a, b, c, d))
   GG(b, c, d, a, x[12], S24, 0x8d2a4c8a); /* 32 */
+  WV_GHOST(wv_m = spec_md5_step(wv_m, 31, this->x); wv_rounds++;) WV_CUT(a, b, c, d, wv_m; WV_MD5_EQ(wv_m, a, b, c, d))
 
   // 第3轮循环变换
 
   HH(a, b, c, d, x[5], S31, 0xfffa3942);  /* 33 */
+  WV_GHOST(wv_m = spec_md5_step(wv_m, 32, this->x); wv_rounds++;) WV_CUT(a, b, c, d, wv_m; WV_MD5_EQ(wv_m, a, b, c, d))
   HH(d, a, b, c, x[8], S32, 0x8771f681);  /* 34 */
+  WV_GHOST(wv_m = spec_md5_step(wv_m, 33, this->x); wv_rounds++;) WV_CUT(a, b, c, d, wv_m; WV_MD5_EQ(wv_m, a, b, c, d))
   HH(c, d, a, b, x[11], S33, 0x6d9d6122); /* 35 */
+  WV_GHOST(wv_m = spec_md5_step(wv_m, 34, this->x); wv_rounds++;) WV_CUT(a, b, c, d, wv_m; WV_MD5_EQ(wv_m, a, b, c, d))
   HH(b, c, d, a, x[14], S34, 0xfde5380c); /* 36 */
+  WV_GHOST(wv_m = spec_md5_step(wv_m, 35, this->x); wv_rounds++;) WV_CUT(a, b, c, d, wv_m; WV_MD5_EQ(wv_m, a, b, c, d))
   HH(a, b, c, d, x[1], S31, 0xa4beea44);  /* 37 */
+  WV_GHOST(wv_m = spec_md5_step(wv_m, 36, this->x); wv_rounds++;) WV_CUT(a, b, c, d, wv_m; WV_MD5_EQ(wv_m, a, b, c, d))
   HH(d, a, b, c, x[4], S32, 0x4bdecfa9);  /* 38 */
+  WV_GHOST(wv_m = spec_md5_step(wv_m, 37, this->x); wv_rounds++;) WV_CUT(a, b, c, d, wv_m; WV_MD5_EQ(wv_m, a, b, c, d))
   HH(c, d, a, b, x[7], S33, 0xf6bb4b60);  /* 39 */
+  WV_GHOST(wv_m = spec_md5_step(wv_m, 38, this->x); wv_rounds++;) WV_CUT(a, b, c, d, wv_m; WV_MD5_EQ(wv_m, a, b, c, d))
   HH(b, c, d, a, x[10], S34, 0xbebfbc70); /* 40 */
+  WV_GHOST(wv_m = spec_md5_step(wv_m, 39, this->x); wv_rounds++;) WV_CUT(a, b, c, d, wv_m; WV_MD5_EQ(wv_m, a, b, c, d))
   HH(a, b, c, d, x[13], S31, 0x289b7ec6); /* 41 */
+  WV_GHOST(wv_m = spec_md5_step(wv_m, 40, this->x); wv_rounds++;) WV_CUT(a, b, c, d, wv_m; WV_MD5_EQ(wv_m, a, b, c, d))
   HH(d, a, b, c, x[0], S32, 0xeaa127fa);  /* 42 */
+  WV_GHOST(wv_m = spec_md5_step(wv_m, 41, this->x); wv_rounds++;) WV_CUT(a, b, c, d, wv_m; WV_MD5_EQ(wv_m, a, b, c, d))
   HH(c, d, a, b, x[3], S33, 0xd4ef3085);  /* 43 */
+  WV_GHOST(wv_m = spec_md5_step(wv_m, 42, this->x); wv_rounds++;) WV_CUT(a, b, c, d, wv_m; WV_MD5_EQ(wv_m, a, b, c, d))
   HH(b, c, d, a, x[6], S34, 0x4881d05);   /* 44 */
+  WV_GHOST(wv_m = spec_md5_step(wv_m, 43, this->x); wv_rounds++;) WV_CUT(a, b, c, d, wv_m; WV_MD5_EQ(wv_m, a, b, c, d))
   HH(a, b, c, d, x[9], S31, 0xd9d4d039);  /* 45 */
+  WV_GHOST(wv_m = spec_md5_step(wv_m, 44, this->x); wv_rounds++;) WV_CUT(a, b, c, d, wv_m; WV_MD5_EQ(wv_m, a, b, c, d))
   HH(d, a, b, c, x[12], S32, 0xe6db99e5); /* 46 */
+  WV_GHOST(wv_m = spec_md5_step(wv_m, 45, this->x); wv_rounds++;) WV_CUT(a, b, c, d, wv_m; WV_MD5_EQ(wv_m, a, b, c, d))
   HH(c, d, a, b, x[15], S33, 0x1fa27cf8); /* 47 */
+  WV_GHOST(wv_m = spec_md5_step(wv_m, 46, this->x); wv_rounds++;) WV_CUT(a, b, c, d, wv_m; WV_MD5_EQ(wv_m, a, b, c, d))
   HH(b, c, d, a, x[2], S34, 0xc4ac5665);  /* 48 */
+  WV_GHOST(wv_m = spec_md5_step(wv_m, 47, this->x); wv_rounds++;) WV_CUT(a, b, c, d, wv_m; WV_MD5_EQ(wv_m, a, b, c, d))
 
   // 第4轮循环变换
 
   II(a, b, c, d, x[0], S41, 0xf4292244);  /* 49 */
+  WV_GHOST(wv_m = spec_md5_step(wv_m, 48, this->x); wv_rounds++;) WV_CUT(a, b, c, d, wv_m; WV_MD5_EQ(wv_m, a, b, c, d))
   II(d, a, b, c, x[7], S42, 0x432aff97);  /* 50 */
+  WV_GHOST(wv_m = spec_md5_step(wv_m, 49, this->x); wv_rounds++;) WV_CUT(a, b, c, d, wv_m; WV_MD5_EQ(wv_m, a, b, c, d))
   II(c, d, a, b, x[14], S43, 0xab9423a7); /* 51 */
+  WV_GHOST(wv_m = spec_md5_step(wv_m, 50, this->x); wv_rounds++;) WV_CUT(a, b, c, d, wv_m; WV_MD5_EQ(wv_m, a, b, c, d))
   II(b, c, d, a, x[5], S44, 0xfc93a039);  /* 52 */
+  WV_GHOST(wv_m = spec_md5_step(wv_m, 51, this->x); wv_rounds++;) WV_CUT(a, b, c, d, wv_m; WV_MD5_EQ(wv_m, a, b, c, d))
   II(a, b, c, d, x[12], S41, 0x655b59c3); /* 53 */
+  WV_GHOST(wv_m = spec_md5_step(wv_m, 52, this->x); wv_rounds++;) WV_CUT(a, b, c, d, wv_m; WV_MD5_EQ(wv_m, a, b, c, d))
   II(d, a, b, c, x[3], S42, 0x8f0ccc92);  /* 54 */
+  WV_GHOST(wv_m = spec_md5_step(wv_m, 53, this->x); wv_rounds++;) WV_CUT(a, b, c, d, wv_m; WV_MD5_EQ(wv_m, a, b, c, d))
   II(c, d, a, b, x[10], S43, 0xffeff47d); /* 55 */
+  WV_GHOST(wv_m = spec_md5_step(wv_m, 54, this->x); wv_rounds++;) WV_CUT(a, b, c, d, wv_m; WV_MD5_EQ(wv_m, a, b, c, d))
   II(b, c, d, a, x[1], S44, 0x85845dd1);  /* 56 */
+  WV_GHOST(wv_m = spec_md5_step(wv_m, 55, this->x); wv_rounds++;) WV_CUT(a, b, c, d, wv_m; WV_MD5_EQ(wv_m, a, b, c, d))
   II(a, b, c, d, x[8], S41, 0x6fa87e4f);  /* 57 */
+  WV_GHOST(wv_m = spec_md5_step(wv_m, 56, this->x); wv_rounds++;) WV_CUT(a, b, c, d, wv_m; WV_MD5_EQ(wv_m, a, b, c, d))
   II(d, a, b, c, x[15], S42, 0xfe2ce6e0); /* 58 */
+  WV_GHOST(wv_m = spec_md5_step(wv_m, 57, this->x); wv_rounds++;) WV_CUT(a, b, c, d, wv_m; WV_MD5_EQ(wv_m, a, b, c, d))
   II(c, d, a, b, x[6], S43, 0xa3014314);  /* 59 */
+  WV_GHOST(wv_m = spec_md5_step(wv_m, 58, this->x); wv_rounds++;) WV_CUT(a, b, c, d, wv_m; WV_MD5_EQ(wv_m, a, b, c, d))
   II(b, c, d, a, x[13], S44, 0x4e0811a1); /* 60 */
+  WV_GHOST(wv_m = spec_md5_step(wv_m, 59, this->x); wv_rounds++;) WV_CUT(a, b, c, d, wv_m; WV_MD5_EQ(wv_m, a, b, c, d))
   II(a, b, c, d, x[4], S41, 0xf7537e82);  /* 61 */
+  WV_GHOST(wv_m = spec_md5_step(wv_m, 60, this->x); wv_rounds++;) WV_CUT(a, b, c, d, wv_m; WV_MD5_EQ(wv_m, a, b, c, d))
   II(d, a, b, c, x[11], S42, 0xbd3af235); /* 62 */
+  WV_GHOST(wv_m = spec_md5_step(wv_m, 61, this->x); wv_rounds++;) WV_CUT(a, b, c, d, wv_m; WV_MD5_EQ(wv_m, a, b, c, d))
   II(c, d, a, b, x[2], S43, 0x2ad7d2bb);  /* 63 */
+  WV_GHOST(wv_m = spec_md5_step(wv_m, 62, this->x); wv_rounds++;) WV_CUT(a, b, c, d, wv_m; WV_MD5_EQ(wv_m, a, b, c, d))
   II(b, c, d, a, x[9], S44, 0xeb86d391);  /* 64 */
+  WV_GHOST(wv_m = spec_md5_step(wv_m, 63, this->x); wv_rounds++;) WV_CUT(a, b, c, d, wv_m; WV_MD5_EQ(wv_m, a, b, c, d))
+  WV_ASSERT("[C07] MD5 runs exactly 64 steps", wv_rounds == 64);
+  WV_GHOST(wv_snap_t[0] = a; wv_snap_t[1] = b; wv_snap_t[2] = c; wv_snap_t[3] = d;)
   h[0] += a;
   h[1] += b;
   h[2] += c;
